@@ -4,6 +4,7 @@ from engine.shape import STAR
 from .common import reachable_local_fns, norm_path
 from .shape_common import classify, run_jobs, cmp_sites_for, fact_true, fact_false, server_chains, chain_name
 
+EXTRA_CONFIGS = ('default', 'tokio1', 'serde1', 'serde-transport')   # feature configurations re-analysed in the thorough tier
 META = {
     'level': 'other',
     'technique': 'static typestate analysis with the shape walker (throttle automaton over hand-off / reply events with a dominating-comparison fact) plus provenance of the throttle reply',
